@@ -276,6 +276,20 @@ def static_recursion_obligations(world):
                 recv = ast.unparse(n.func.value)
                 if "self.arg(" in recv or "self.args()" in recv or "_content.args" in recv:
                     bad.append((acc, n.lineno))
+                elif isinstance(n.func.value, ast.Name) and n.func.value.id != "self":
+                    # <local>.acc(): fine when the local was moved down to a node that ends the descent by a LOOP
+                    # (`while local.is_x(): local = local.arg(i)`); a local set to a child outside such a loop makes the call
+                    # a recursion over the nesting
+                    loc = n.func.value.id
+                    in_loop = set()
+                    for w_ in ast.walk(fi.node):
+                        if isinstance(w_, ast.While) and loc in {x.id for x in ast.walk(w_.test) if isinstance(x, ast.Name)}:
+                            in_loop |= {id(x) for x in ast.walk(w_)}
+                    for a_ in ast.walk(fi.node):
+                        if isinstance(a_, ast.Assign) and any(isinstance(t_, ast.Name) and t_.id == loc for t_ in a_.targets):
+                            src_ = ast.unparse(a_.value)
+                            if (".arg(" in src_ or ".args()" in src_) and id(a_) not in in_loop:
+                                bad.append((acc, n.lineno))
         out.append(("C20:no-recursion:pysmt.fnode.FNode.%s" % acc, not bad, {"calls": bad}))
     return out
 
@@ -396,6 +410,71 @@ def variants(world, tier="quick", only=None):
     out = _base_variants14(world, tier, None)
     for cls, extra in get_key_definitions(world.repo):
         out.append(GetKeyVariant(world, cls, extra))
+    if only:
+        out = [v for v in out if any(o in v.name for o in only)]
+    return out
+
+
+# ---------------------------------------------------------------------------
+# entry points of the persistent-table services write the table only through the walk
+# ---------------------------------------------------------------------------
+class EntryFrameVariant(Variant):
+    """Simplifier.simplify / FreeVarsOracle.get_free_variables / ... : the entry point returns what the walk returns and writes
+    nothing into the memo table itself - every entry of a persistent table is a (node, callback result) pair made by the walk."""
+    prop_ids = ("C14",)
+
+    def __init__(self, world, cls, method):
+        self.world, self.cls, self.method = world, cls, method
+        self.qualname = cls + "." + method
+        self.name = "entry:%s.%s" % (cls.rsplit(".", 1)[1], method)
+
+    def setup(self, ex):
+        W = self.world
+        env = core.make_env(ex, W)
+        self.f = z3.Const("formula", Node)
+        W.touch(ex, self.f)
+        self.k0, self.r0 = z3.Const("memoised_node", Node), z3.Const("memoised_result", Res)
+        self.memo = DictVal([[self.k0, self.r0]])
+        self.Wf = z3.Function("result_of_the_walk", Node, Node)      # what the walk computes for a node (its callbacks: C01 ...)
+        self.res = self.Wf(self.f)
+        W.touch(ex, self.res)
+        self.walked = []
+        v = self
+        self.w = Obj(self.cls, {"env": env, "memoization": self.memo, "stack": [], "manager": env.fields["_formula_manager"],
+                                "invalidate_memoization": False}, tag="service")
+        def walk(exx, a, kw):
+            x = a[1] if len(a) > 1 else kw.get("formula")
+            v.walked.append(x)
+            r_ = v.Wf(x)
+            W.touch(exx, r_)
+            return r_
+        self.w.fields["walk"] = Builtin("walk", walk, bound=self.w)
+        fi = W.repo.method(self.cls, self.method)
+        return W.wrap_func(fi, fi.module, bound=self.w), [self.f], {}
+
+    def check(self, ex, outcome):
+        kind, r = outcome
+        if kind == "raise":
+            return [("no-exception", z3.BoolVal(False))]
+        items = self.memo.items
+        kept = len(items) >= 1 and items[0][0] is self.k0 and items[0][1] is self.r0
+        goals = [("walks-the-formula", z3.Or([x == self.f for x in self.walked if is_node(x)]) if self.walked else z3.BoolVal(False)),
+                 ("returns-the-result-of-the-walk", (r == self.res) if is_node(r) else z3.BoolVal(False)),
+                 ("earlier-entries-untouched", z3.BoolVal(bool(kept)))]
+        # an entry the entry point writes itself must be what the walk would compute for that node (not, e.g., the node itself:
+        # simplification is not idempotent)
+        for k_, v_ in items[1:]:
+            ok = is_node(k_) and is_node(v_)
+            goals.append(("entries-written-are-results-of-the-walk", (v_ == self.Wf(k_)) if ok else z3.BoolVal(False)))
+        return goals
+
+
+_base_variants14b = variants
+
+
+def variants(world, tier="quick", only=None):
+    out = _base_variants14b(world, tier, None)
+    out.append(EntryFrameVariant(world, "pysmt.simplifier.Simplifier", "simplify"))
     if only:
         out = [v for v in out if any(o in v.name for o in only)]
     return out
